@@ -134,6 +134,8 @@ type Sim struct {
 	TraceAll     bool
 	AutoAdvances int // times the clock was moved to a library timer
 	tickers      []*ticker
+	rootChildren int
+	onces        map[*sync.Once]*onceState
 	recent       [16]string // ring of the last scheduling decisions
 	SimTime      time.Duration
 	nroot        int
@@ -252,8 +254,17 @@ func (s *Sim) Spawn(name string, fn func()) *G {
 // Go replaces the go statement in instrumented code.
 func Go(site string, fn func()) {
 	s := cur.Load()
-	if s == nil || s.dead.Load() || s.cur == nil {
+	if s == nil || s.dead.Load() {
 		go fn()
+		return
+	}
+	if s.cur == nil {
+		// library code run directly by the scheduler goroutine (a constructor
+		// called by a scenario between Run calls) starts a goroutine: it becomes a
+		// simulated goroutine all the same
+		s.rootChildren++
+		g := s.newG("root."+strconv.Itoa(s.rootChildren), site, true)
+		s.start(g, fn)
 		return
 	}
 	p := s.cur
@@ -823,4 +834,84 @@ func Adopted(site string, f func() error) func() error {
 		s.adopt(name, site, func() { err = f() })
 		return err
 	}
+}
+
+// BeforeLocker is BeforeLock for a value of the interface type sync.Locker
+// (cond.L.Lock()): the usual probe when it is a mutex, a plain yield otherwise.
+func BeforeLocker(site string, l sync.Locker) {
+	switch m := l.(type) {
+	case *sync.Mutex:
+		BeforeLock(site, func() bool {
+			if m.TryLock() {
+				m.Unlock()
+				return true
+			}
+			return false
+		})
+	case *sync.RWMutex:
+		BeforeLock(site, func() bool {
+			if m.TryLock() {
+				m.Unlock()
+				return true
+			}
+			return false
+		})
+	default:
+		Yield(site)
+	}
+}
+
+// OnceDo replaces (*sync.Once).Do in instrumented code. A second caller of Do
+// waits - natively, on Once's internal mutex - until the first has finished; if
+// the first is parked inside f that wait would stall the scheduler. So callers
+// queue on the simulator's side instead.
+func OnceDo(site string, o *sync.Once, f func()) {
+	s := cur.Load()
+	if s == nil || s.dead.Load() || s.cur == nil {
+		o.Do(f)
+		return
+	}
+	s.mu.Lock()
+	if s.onces == nil {
+		s.onces = map[*sync.Once]*onceState{}
+	}
+	st := s.onces[o]
+	if st == nil {
+		st = &onceState{}
+		s.onces[o] = st
+	}
+	running := st.running && !st.done
+	if !st.running {
+		st.running = true
+	}
+	s.mu.Unlock()
+	if running {
+		Block(site, func() bool { return st.done })
+		o.Do(f) // returns at once: already done
+		return
+	}
+	defer func() { st.done = true }()
+	o.Do(f)
+}
+
+type onceState struct{ running, done bool }
+
+// ContextWithTimeoutCause / ContextWithDeadlineCause replace their context counterparts.
+func ContextWithTimeoutCause(ctx context.Context, d time.Duration, cause error) (context.Context, context.CancelFunc) {
+	register(d)
+	return context.WithTimeoutCause(ctx, d, cause)
+}
+
+func ContextWithDeadlineCause(ctx context.Context, t time.Time, cause error) (context.Context, context.CancelFunc) {
+	register(time.Until(t))
+	return context.WithDeadlineCause(ctx, t, cause)
+}
+
+// TimeAfterFuncV and ContextAfterFuncV have the signatures of time.AfterFunc and
+// context.AfterFunc: for references to those functions as values.
+func TimeAfterFuncV(d time.Duration, f func()) *time.Timer {
+	return TimeAfterFunc("value:afterfunc", d, f)
+}
+func ContextAfterFuncV(ctx context.Context, f func()) func() bool {
+	return ContextAfterFunc("value:afterfunc", ctx, f)
 }
